@@ -118,6 +118,7 @@ type interpreter struct {
 	regexps      map[*value]*regexp.Regexp
 	initFnDone   map[*ssa.Function]bool
 	hashes       []hashEntry
+	concHashes   []concHash
 	abiEvents    map[string]bool
 	bitsN        int
 	hashN        int
